@@ -21,6 +21,9 @@ func init() {
 		},
 		Run: runC20,
 		Controls: []Control{
+			{Name: "classic-nlri-copy-the-mp-template", File: "protocols/bgp/server/fsm_address_family.go", Old: "\t\tpath := f.newRoutePath(bmpPostPolicy, timestamp)\n\t\tf.processAttributes(u.PathAttributes, path)\n\t\tpath.BGPPath.PathIdentifier = r.PathIdentifier\n", New: "\t\tpath := f.newRoutePath(bmpPostPolicy, timestamp)\n\t\tf.processAttributes(u.PathAttributes, path)\n\t\tif mp, _ := getMPReachAndUnreachNLRIs(u); mp != nil {\n\t\t\tf.multiProtocolUpdate(path, *mp)\n\t\t\tpath = path.Copy()\n\t\t}\n\t\tpath.BGPPath.PathIdentifier = r.PathIdentifier\n", Expect: "mp-next-hop-stays-in-mp-path"},
+			{Name: "last-nlri-takes-the-message-path", File: "protocols/bgp/server/fsm_address_family.go", Old: "\t\tp := path.Copy()\n\t\tp.BGPPath.PathIdentifier = n.PathIdentifier\n", New: "\t\tp := path\n\t\tif n.Next != nil {\n\t\t\tp = path.Copy()\n\t\t}\n\t\tp.BGPPath.PathIdentifier = n.PathIdentifier\n", Expect: "fresh-path-per-nlri"},
+			{Name: "withdraw-writes-identifier-into-shared-path", File: "protocols/bgp/server/fsm_address_family.go", Old: "\t\tp := path.Copy()\n\t\tp.BGPPath.PathIdentifier = cur.PathIdentifier\n\n\t\tf.adjRIBIn.RemovePath(cur.Prefix, p)", New: "\t\tpath.BGPPath.PathIdentifier = cur.PathIdentifier\n\n\t\tf.adjRIBIn.RemovePath(cur.Prefix, path)", Expect: "fresh-path-per-nlri"},
 			{Name: "attribute-walk-stops-at-first-mp-attribute", File: "protocols/bgp/server/fsm_address_family.go", Old: "\t\t\tur := pa.Value.(packet.MultiProtocolUnreachNLRI)\n\t\t\tunreach = &ur\n\t\t}\n", New: "\t\t\tur := pa.Value.(packet.MultiProtocolUnreachNLRI)\n\t\t\tunreach = &ur\n\t\t}\n\n\t\tif reach != nil || unreach != nil {\n\t\t\tbreak\n\t\t}\n", Expect: "attribute-walk-is-complete"},
 			{Name: "refactor-attribute-walk-stops-when-both-found", Silent: true, File: "protocols/bgp/server/fsm_address_family.go", Old: "\t\t\tur := pa.Value.(packet.MultiProtocolUnreachNLRI)\n\t\t\tunreach = &ur\n\t\t}\n", New: "\t\t\tur := pa.Value.(packet.MultiProtocolUnreachNLRI)\n\t\t\tunreach = &ur\n\t\t}\n\n\t\tif reach != nil && unreach != nil {\n\t\t\tbreak\n\t\t}\n"},
 			{Name: "withdraw-with-identifier-zero-matches-all", File: "routingtable/adjRIBIn/adj_rib_in.go", Old: "\t\t\tif p != nil && path.BGPPath.PathIdentifier != p.BGPPath.PathIdentifier {", New: "\t\t\tif p != nil && p.BGPPath.PathIdentifier != 0 && path.BGPPath.PathIdentifier != p.BGPPath.PathIdentifier {", Expect: "path-identifier-is-opaque"},
@@ -32,6 +35,7 @@ func init() {
 }
 
 func runC20(c *core.Ctx) {
+	mpNextHopStaysInMPPath(c)
 	p := c.P
 	pathIDOpaque(c, "path-identifier-is-opaque")
 	attributeWalkComplete(c)
@@ -139,6 +143,20 @@ func runC20(c *core.Ctx) {
 					}
 					return true
 				})
+				ast.Inspect(l.Body, func(m ast.Node) bool {
+					as, ok := m.(*ast.AssignStmt)
+					if !ok {
+						return true
+					}
+					for _, lh := range as.Lhs {
+						if core.FieldOf(f.Pkg, lh) == pathPID {
+							base := core.BaseIdent(lh)
+							c.Check(base != nil && freshInLoop(p, f, l.Body, core.ObjOf(f.Pkg, base)), "fresh-path-per-nlri", construct+" identifier is written into an object of this iteration", as.Pos(),
+								"the NLRI's path identifier is written into a path object that outlives the iteration (the message's shared path): whoever holds that object — the Adj-RIB-In, for an NLRI announced from the same message — sees the identifier of a different NLRI")
+						}
+					}
+					return true
+				})
 				c.Check(okID, "per-nlri-fields-from-cursor", construct+" path identifier is set from the cursor inside the loop", call.Pos(), "inside the per-NLRI loop the path's identifier is not set from the current NLRI")
 				// (2) freshness
 				if se.Sel.Name == "AddPath" {
@@ -149,29 +167,7 @@ func runC20(c *core.Ctx) {
 					case *ast.CallExpr:
 						fresh = p.OwningCall(f, a)
 					case *ast.Ident:
-						obj := core.ObjOf(f.Pkg, a)
-						// its defining statement lies inside the loop body and is an owning call / fresh literal
-						ast.Inspect(l.Body, func(m ast.Node) bool {
-							as, ok := m.(*ast.AssignStmt)
-							if !ok {
-								return true
-							}
-							for i, lh := range as.Lhs {
-								if id, ok := core.Unparen(lh).(*ast.Ident); ok && core.ObjOf(f.Pkg, id) == obj && i < len(as.Rhs) {
-									switch r := core.Unparen(as.Rhs[i]).(type) {
-									case *ast.CallExpr:
-										if p.OwningCall(f, r) {
-											fresh = true
-										}
-									case *ast.UnaryExpr:
-										if _, isLit := r.X.(*ast.CompositeLit); isLit {
-											fresh = true
-										}
-									}
-								}
-							}
-							return true
-						})
+						fresh = freshInLoop(p, f, l.Body, core.ObjOf(f.Pkg, a))
 					}
 					c.Check(fresh, "fresh-path-per-nlri", construct+" path object is created inside the iteration", call.Pos(),
 						"one path object is handed to the Adj-RIB-In for several NLRI: the Adj-RIB-In stores the pointer and writes HiddenReason / default LOCAL_PREF / the identifier into it, so all prefixes of the UPDATE share (and overwrite) one path")
@@ -294,4 +290,39 @@ func fieldName(f *core.Fn, e ast.Expr) string {
 		return fv.Name()
 	}
 	return ""
+}
+
+// freshInLoop: every definition of obj in f is an owning call (Copy/constructor) or a fresh literal, and lies inside body.
+func freshInLoop(p *core.Prog, f *core.Fn, body *ast.BlockStmt, obj types.Object) bool {
+	if obj == nil {
+		return false
+	}
+	n, all := 0, true
+	ast.Inspect(f.Decl.Body, func(m ast.Node) bool {
+		as, ok := m.(*ast.AssignStmt)
+		if !ok {
+			return true
+		}
+		for i, lh := range as.Lhs {
+			id, ok := core.Unparen(lh).(*ast.Ident)
+			if !ok || core.ObjOf(f.Pkg, id) != obj {
+				continue
+			}
+			n++
+			ok = false
+			if i < len(as.Rhs) && len(as.Lhs) == len(as.Rhs) && as.Pos() >= body.Pos() && as.End() <= body.End() {
+				switch r := core.Unparen(as.Rhs[i]).(type) {
+				case *ast.CallExpr:
+					ok = p.OwningCall(f, r)
+				case *ast.UnaryExpr:
+					_, ok = r.X.(*ast.CompositeLit)
+				}
+			}
+			if !ok {
+				all = false
+			}
+		}
+		return true
+	})
+	return n > 0 && all
 }
